@@ -13,16 +13,18 @@ import (
 	"verifharness/internal/stats"
 )
 
-var fuzzSpecs = [8]string{"EC-256", "EC-384", "EC-521", "EC-256", "EC-384", "RSA-2048", "RSA-3072", "RSA-4096"}
+// key spec by selector bits 1..4 (RSA is slow under coverage instrumentation: 3 of 16)
+var fuzzSpecs = [16]string{"EC-256", "EC-384", "EC-521", "RSA-2048", "EC-256", "EC-384", "EC-521", "RSA-3072",
+	"EC-256", "EC-384", "EC-521", "RSA-4096", "EC-256", "EC-384", "EC-256", "EC-256"}
 
 // fuzzCase is the fixed request a selector byte stands for.
 func fuzzCase(sel byte) Case {
-	c := Case{Path: "envelope", Format: "jws", KeySpec: fuzzSpecs[(sel>>1)&7], Inter: 1, KeyID: "key1", Content: []byte("fuzzed artifact"),
+	c := Case{Path: "envelope", Format: "jws", KeySpec: fuzzSpecs[(sel>>1)&15], Inter: 1, KeyID: "key1", Content: []byte("fuzzed artifact"),
 		Ann: []KV{{"io.wabbit-networks.buildId", "123"}, {"k", "v"}}, Fuzz: true}
 	if sel&1 == 1 {
 		c.Format = "cose"
 	}
-	if sel&16 == 0 {
+	if sel&32 == 0 {
 		c.Target, c.Entry, c.MediaType, c.DigestAlg, c.Size = "oci", "signer", ociTypes[0], "sha256", 528
 	} else {
 		c.Target, c.Entry, c.MediaType = "blob", "signer", blobTypes[0]
@@ -53,10 +55,10 @@ type fuzzSeed struct {
 
 func fuzzSeeds() []fuzzSeed {
 	var out []fuzzSeed
-	for _, sel := range []byte{0, 1, 16, 17, 2, 5, 11, 12, 15} {
+	for _, sel := range []byte{0, 1, 32, 33, 2, 3, 4, 5, 6, 7, 14, 15, 22, 23, 35, 37, 39} {
 		out = append(out, fuzzSeed{honestModel(fuzzCase(sel)).bytes(), sel, true})
 	}
-	for _, sel := range []byte{0, 1, 17} {
+	for _, sel := range []byte{0, 1, 33} {
 		for _, d := range envEdits {
 			if d.group == "envelope" {
 				continue // not a payload edit
